@@ -127,3 +127,18 @@ pub fn frame_except(now: &[u8; 8], before: &[u8; 8], rd: usize) -> bool {
     }
     ok && (now[FR] & 0xF8 == before[FR] & 0xF8)
 }
+
+/// A fetch word whose content differs from the representative 0x006 must still behave like it
+/// (generated only when the microprogram contains such a word).
+pub fn fetch_word_equiv(other: usize) {
+    let mut a = state_at(0x006);
+    a.verif_set_pending_wait(false);
+    let mut b = a.clone();
+    b.verif_set_micro_address(other);
+    a.trigger_clock_edge();
+    b.trigger_clock_edge();
+    assert!(same_core(&a, &b), "every instruction-fetch word behaves like the representative fetch word");
+    assert!(same_bus_regs(a.bus(), b.bus()) && same_board(a.bus().board(), b.bus().board()), "same bus effect");
+    let i = any_ram_index();
+    assert!(a.bus().memory()[i] == b.bus().memory()[i], "same RAM effect");
+}
